@@ -144,6 +144,66 @@ example :
       = [some 1, some 1, some 0] := by decide
 example : defines 9 (.scope .block ([] : Dict Nat) (.fn 1 [] .nil) (.fn 2 [] .nil)) = false := by decide
 
+/-- **instantiating a class template does not disturb what exists**: `rehome`
+    only appends clones and re-attaches the scope it is called for; every
+    scope that existed before keeps its local dictionary, and every one other
+    than `s` keeps its parent (for every heap, memo, fuel). -/
+theorem rehome_frame (fuel : Nat) (h : Heap) (cl : List (Nat × Nat)) (s o n : Nat) :
+    h.length ≤ (rehome fuel h cl s o n).1.length ∧
+    ∀ i, i < h.length →
+      ((rehome fuel h cl s o n).1[i]?).map (·.locals) = (h[i]?).map (·.locals) ∧
+      (i ≠ s → ((rehome fuel h cl s o n).1[i]?).map (·.parent) = (h[i]?).map (·.parent)) := by
+  induction fuel generalizing h cl s with
+  | zero => simp [rehome]
+  | succ k ih =>
+    unfold rehome
+    have rp : ∀ (hh : Heap) (q : Option Nat), hh.length = (reparent hh s q).length ∧
+        ∀ i, i < hh.length →
+          ((reparent hh s q)[i]?).map (·.locals) = (hh[i]?).map (·.locals) ∧
+          (i ≠ s → ((reparent hh s q)[i]?).map (·.parent) = (hh[i]?).map (·.parent)) := by
+      intro hh q
+      refine ⟨by simp [reparent, modify_length], ?_⟩
+      intro i _
+      unfold reparent
+      rw [modify_getElem?]
+      by_cases e : i = s
+      · subst e; cases hh[i]? <;> simp
+      · simp [e]
+    cases hs : h[s]? with
+    | none => simp
+    | some fr =>
+      simp only []
+      cases hp : fr.parent with
+      | none =>
+        simp only []
+        exact ⟨Nat.le_of_eq (rp h _).1, (rp h _).2⟩
+      | some p =>
+        simp only []
+        by_cases e : p = o
+        · simp only [e, if_true]
+          exact ⟨Nat.le_of_eq (rp h _).1, (rp h _).2⟩
+        · simp only [e, if_false]
+          cases hm : memoGet cl p with
+          | some c =>
+            simp only []
+            exact ⟨Nat.le_of_eq (rp h _).1, (rp h _).2⟩
+          | none =>
+            simp only []
+            obtain ⟨c2, cle, cget⟩ := clone_spec h p
+            have IH := ih (clone h p).1 ((p, (clone h p).2) :: cl) (clone h p).2
+            obtain ⟨l2, g2⟩ := IH
+            have R := rp (rehome k (clone h p).1 ((p, (clone h p).2) :: cl) (clone h p).2 o n).1 (some (clone h p).2)
+            refine ⟨by omega, ?_⟩
+            intro i hi
+            have hi1 : i < (clone h p).1.length := by omega
+            have g := g2 i hi1
+            have hne : i ≠ (clone h p).2 := by rw [c2]; omega
+            have r := R.2 i (by omega)
+            constructor
+            · rw [r.1, g.1, cget i hi]
+            · intro hs'
+              rw [r.2 hs', g.2 hne, cget i hi]
+
 /-! ## (2) an empty block is transparent -/
 
 /-- a scope without local keys preserves every lookup made through it -/
